@@ -77,7 +77,7 @@ Print Assumptions C05_bytes_at_report.
    attachment and after gathering, MultipleExceptions incl. a KeyboardInterrupt, two handlers *)
 Example C05_example :
   let fx := {| fx_tok := 20; fx_old := true; fx_details := [((4, []), 2)]; fx_cleanups := [];
-               fx_fail := Some (Exc CValueError None) |} in
+               fx_fail := Some (Exc CValueError None); fx_bad := None |} in
   let i := {| i_prog := {| p_skip := None; p_xfail := false;
                 p_setup := (1, [ADetail n_traceback 1; ADetail (0, [1]) 1; AOnExc 0; ASetCell 2 3]); p_up_setup := true;
                 p_body := (2, [ADetail (4, []) 2; AExpect [((4, []), 2)]; AOnExc 1; AFixture fx]);
@@ -91,4 +91,18 @@ Example C05_example :
                               (0, CKbd); (1, CKbd); (0, CFail); (1, CFail)];
                   o_late := 0 |}
   /\ expected_details (i_prog i) = [(0, OBytes 0); (0, OBytes 0); (4, OBytes 5); (4, OBytes 5); (1, OStack); (4, OBytes 3)].
+Proof. vm_compute. repeat split. Qed.
+
+(* non-vacuity for fixtures with a detail that cannot be evaluated: what getDetails() lists before it
+   arrives, the evaluation error gets its traceback - gathered by the cleanup (set-up succeeded) and
+   at once with the traceback of the set-up error (set-up failed) *)
+Example C05_example_unevaluable_detail :
+  let fx f := {| fx_tok := 20; fx_old := true; fx_details := [((5, []), 1); ((4, []), 2); ((3, []), 1)]; fx_cleanups := [];
+                 fx_fail := f; fx_bad := Some (1, Exc CValueError None) |} in
+  let i f := {| i_prog := {| p_skip := None; p_xfail := false; p_setup := (1, []); p_up_setup := true;
+                             p_body := (2, [ASetCell 1 3; AFixture (fx f)]); p_teardown := (3, []); p_up_teardown := true;
+                             p_handlers := [] |} |} in
+  wf (i None) = true /\ finding_F14 (i None) = false
+  /\ o_details (model (i None)) = [(5, OBytes 3); (0, OTb)]
+  /\ o_details (model (i (Some (Exc CFail None)))) = [(5, OBytes 3); (0, OTb); (0, OTb)].
 Proof. vm_compute. repeat split. Qed.
